@@ -5,6 +5,7 @@ import numpy as np
 
 from .common import fr, frs, parse_nums, all_close, close, quiet
 from .common import guarded
+from skgstat import Variogram
 from . import vario
 
 INFO = dict(
@@ -252,7 +253,63 @@ def check_direct(ctx):
             ctx.lean.ask(['c02', 'uniform', str(n), fr(eff), frs(d)], cb)
 
 
+@guarded
+def check_sequence(ctx, case):
+    """n_lags is honoured when the assigned number happens to be the one currently reported: (a) the class count
+    a rule-based binning derived, assigned explicitly and followed by a switch to `even` / `uniform`; (b) own edges
+    assigned through `bins`, followed by n_lags = their number (the named method with that many classes)"""
+    coords = np.array(case['coords'], float)
+    dall = vario.brute_dists(coords, case['kw']['dist_func'])
+    if len(np.unique(dall)) < 3:
+        return
+    kw = dict(case['kw'], maxlag=None, fit_method=None)
+    target = case['seq_target']
+    try:
+        if case['seq'] == 'a':
+            with quiet():
+                V = Variogram(coords, np.array(case['values'], float), **dict(kw, bin_func=case['seq_rule']))
+                k = int(V.n_lags)
+                V.n_lags = k
+                V.bin_func = target
+                edges, nl = np.asarray(V.bins, float), int(V.n_lags)
+            want_n = k
+        else:
+            with quiet():
+                V = Variogram(coords, np.array(case['values'], float), **dict(kw, bin_func=target, n_lags=4))
+                own = np.linspace(0, float(dall.max()) * 0.83, 7)[1:]
+                V.bins = own
+                V.n_lags = 6
+                edges, nl = np.asarray(V.bins, float), int(V.n_lags)
+            want_n = 6
+    except (ValueError, RuntimeError) as e:
+        ctx.reject('sequence:' + type(e).__name__)
+        return
+    ctx.count('sequence:' + case['seq'])
+    ctx.case(signature=('sequence', case['seq'], target, want_n), stream='sequences')
+    eff = float(dall.max())
+    if nl != want_n or len(edges) != want_n:
+        ctx.violation('n_lags-not-honoured', 'sequence %s -> %s: n_lags=%d was assigned, the instance reports %d classes '
+                      '(%d edges)' % (case['seq'], target, want_n, nl, len(edges)), case)
+        return
+
+    def cb(f, edges=edges):
+        m = parse_nums(f[0])
+        if not all_close(m, edges.tolist(), rel=1e-9):
+            ctx.violation('n_lags-not-honoured', 'sequence %s -> %s with n_lags=%d: edges %r, the method gives %r' % (
+                case['seq'], target, want_n, edges.tolist(), [float(x) for x in m]), case)
+    if target == 'even':
+        ctx.lean.ask(['c02', 'even', str(want_n), fr(eff)], cb)
+    else:
+        ctx.lean.ask(['c02', 'uniform', str(want_n), fr(eff), frs(dall)], cb)
+
+
 def run(ctx):
+    for k in range(ctx.n(30, 300)):
+        case = vario.gen_case(ctx.rng, nmax=30, estimators=['matheron'], allow_custom=False, allow_sparse=False,
+                              binnings=['even'])
+        case.update(seq='ab'[k % 2], seq_target=['even', 'uniform'][(k // 2) % 2],
+                    seq_rule=str(ctx.rng.choice(['sturges', 'scott', 'sqrt', 'fd', 'doane'])), storage='raw')
+        check_sequence(ctx, case)
     for k in range(ctx.n(150, 3000)):
         case = vario.gen_case(ctx.rng, nmax=30 if ctx.tier == 'quick' else 50, estimators=['matheron'])
         case['rebin'] = [None, 0.5, 0.3, 'median', 'mean', 'skip', 'skip', 'skip'][int(ctx.rng.integers(0, 8))]
@@ -266,5 +323,9 @@ def replay(ctx, body):
     case = body['case']
     if case.get('direct'):
         raise SystemExit('direct binning replays are re-run through the seeded run')
+    if case.get('seq'):
+        check_sequence(ctx, case)
+        ctx.lean.flush()
+        return
     check_case(ctx, case)
     ctx.lean.flush()
